@@ -555,7 +555,19 @@ pub fn build_response(tid: u8, error: bool, seal: RespSeal, fp: bool, salt: u16)
     use crate::refimpl::attrs::{ref_encode, Kind, RefAddr, RefVal};
     let named = |k: usize| RefAddr::from_std(&addr(k % NCORE));
     if error {
-        if salt % 3 == 0 {
+        if salt % 5 == 1 {
+            // the challenge of the long-term credential mechanism as servers send it: 401 / 438 with REALM
+            // and NONCE (and PASSWORD-ALGORITHMS), no USERNAME — signed or not as the operation says; an
+            // unsigned one answers a signed request no better than any other unsigned response
+            let code: u16 = if (salt / 5) % 2 == 0 { 401 } else { 438 };
+            let reason: &[u8] = if code == 401 { b"Unauthorized" } else { b"Stale Nonce" };
+            tlvs.push(Tlv::new(0x0009, [&[0u8, 0, (code / 100) as u8, (code % 100) as u8][..], reason].concat()));
+            tlvs.push(Tlv::new(0x0014, b"realm.example".to_vec()));
+            tlvs.push(Tlv::new(0x0015, format!("obMatJos2AAAB{salt:04x}").into_bytes()));
+            if salt % 3 == 0 {
+                tlvs.push(Tlv::new(0x8002, vec![0, 1, 0, 0, 0, 2, 0, 0]));
+            }
+        } else if salt % 3 == 0 {
             // every error code the library names, and RFC 8489's 300, next to an ALTERNATE-SERVER
             const CODES: [u16; 17] = [300, 301, 400, 401, 403, 420, 437, 438, 440, 441, 442, 443, 486, 487, 500, 508, 699];
             let code = CODES[(salt as usize / 3) % CODES.len()];
